@@ -69,6 +69,18 @@ checks = {
    text="Timed cluster search with synchronised clocks and per-message delay of at most one interval (lease 2 + delay 1 < election timeout 6): lease reads at any node that believes it leads, writes, isolation/heal of any node, from a stable 3-voter leader, from the seed where the old leader has been cut off while a new leader exists, and from a 5-voter seed where the old leader keeps only one follower; a successful lease read must cover every write acknowledged before its invocation.",
    technique="explicit-state DFS over the real code with a global virtual clock (timed mode), stale-read monitor",
    note="Synchronised clocks on an integer tick grid; at most one outstanding read per node. Trusted base as for the cluster engine.", ref="4/C17"),
+ "C11": dict(level="exploration", engine="handler",
+   text="Small-scope exhaustive input enumeration: every sequence of up to 3/4 InstallSnapshot requests (two snapshots S1<S2 of one sender history cut into 1-3 chunks, every chunk in any order, duplicates, wrong offsets, lower/equal/higher term) against 6 follower log shapes (shorter, matching, conflicting at either boundary, longer and stale) x commit indices, on a real node booted from preloaded storage; per request: commit/applied/term monotone, no snapshot older than applied, committed entries beyond the label kept, applied entries equal the sender history, visible snapshot bytes equal the sender's snapshot of that label, boundary terms correct; then vote probes at the log end and a catch-up by the legitimate leader that must bring the node to exactly its history. Plus cluster suites with snapshots on.",
+   technique="exhaustive small-scope request-sequence enumeration against the real handler + explicit-state cluster search",
+   note="The differential twin of the design is replaced by the catch-up oracle and vote probes. One sender history of 6 entries over 3 terms.", ref="4/C11"),
+ "C14": dict(level="fault_enumeration", engine="crash-cluster",
+   text="Nine scripted cluster schedules (election and replication, conflict and truncate, vote then candidate dies, local snapshot and compaction, snapshot installation on a lagging follower with small and 33 KiB payloads, installation over a stale suffix, compaction followed by a conflict, membership changes) run on the library's real file-backed storages through the intercepting os layer; every mutating file-system call of every node is a crash point (plus torn prefixes of writes): the node is killed there, restarted over the same directory, then 150 fault-free intervals follow. Oracle: constructors and Start succeed, the recovered log is well formed and holds what the node held, no fatal exit or panic, safety monitors hold, one leader, progress, every member catches up.",
+   technique="exhaustive crash-point enumeration over cluster schedules on the real storages, with restart and bounded-liveness continuation",
+   note="Process-crash fault model, one crash per run, fixed schedules under canonical scheduling. Trusted base: vos layer, storage mirrors used by the monitors.", ref="4/C14"),
+ "C15": dict(level="model_checking", engine="cluster",
+   text="Bounded liveness made safety: from every leaf state (quick) / every distinct state (thorough) of bounded explorations with crashes at storage-call boundaries, partitions, membership changes and snapshots below and above the chunk size, a fault-free continuation of 150 heartbeat intervals (25 election timeouts; prompt delivery, staggered election timeouts) must end with exactly one leader, an acknowledged fresh operation and every member of the committed configuration holding the leader's applied sequence.",
+   technique="explicit-state DFS over the real code with a fault-free timed continuation evaluated per state",
+   note="Premise checked per state (a majority of voters running). Horizon deliberately generous; one timeout rotation per run.", ref="4/C15"),
 }
 
 not_applicable = {}
@@ -90,9 +102,10 @@ m = {
  "engines": [
    {"name": "cluster", "path": "mc/explore + mc/sim + mc/monitor", "serves_properties": sorted(k for k, v in checks.items() if v["engine"] == "cluster"),
     "kind_free_text": "stateful depth-first search over environment events of a simulated cluster running the real library under a cooperative scheduler (overlay-instrumented build)"},
-   {"name": "handler", "path": "mc/cmd/check/c06.go + mc/sim/single.go", "serves_properties": ["C06"], "kind_free_text": "exhaustive small-scope input enumeration against exported handlers of a real node booted from preloaded storage"},
+   {"name": "handler", "path": "mc/cmd/check/c06.go + mc/sim/single.go", "serves_properties": ["C06", "C11"], "kind_free_text": "exhaustive small-scope input enumeration against exported handlers of a real node booted from preloaded storage"},
    {"name": "sched", "path": "mc/sched", "serves_properties": ["C10", "C20"], "kind_free_text": "stateless enumeration of goroutine schedules of fixed scenarios up to a bound on non-default decisions (controlled cooperative scheduler; optionally under -race)"},
    {"name": "crash", "path": "mc/crashfs + shim/vos", "serves_properties": ["C12", "C13"], "kind_free_text": "crash-point / torn-write enumeration of operation sequences on the real file-backed storages through an intercepting os layer"},
+   {"name": "crash-cluster", "path": "mc/cmd/check/c14.go + mc/sim/filestore.go", "serves_properties": ["C14"], "kind_free_text": "crash-point enumeration over scripted cluster schedules on the real file-backed storages"},
    {"name": "api", "path": "mc/cmd/check/c18.go + mc/sim/api.go", "serves_properties": ["C18"], "kind_free_text": "exhaustive bounded API-call sequences from constructed base states"},
    {"name": "codec", "path": "mc/codec", "serves_properties": ["C19"], "kind_free_text": "exhaustive enumeration of message/record domains through the real gRPC transport and file storages"},
  ],
